@@ -7,11 +7,13 @@ import (
 	"net"
 	"runtime"
 	"sync"
+	"sync/atomic"
 	"syscall"
 	"time"
 
 	"github.com/netflix/rend/common"
 	"github.com/netflix/rend/handlers"
+	"github.com/netflix/rend/handlers/memcached/batched"
 	"github.com/netflix/rend/handlers/memcached/chunked"
 	"github.com/netflix/rend/handlers/memcached/std"
 	"github.com/netflix/rend/orcas"
@@ -19,6 +21,7 @@ import (
 	"github.com/netflix/rend/protocol/binprot"
 	"github.com/netflix/rend/protocol/textprot"
 	"github.com/netflix/rend/server"
+	"github.com/netflix/rend/verifshim/vnet"
 
 	"verif/fakemc"
 	"verif/wire"
@@ -200,8 +203,20 @@ type World struct {
 	// WrapHandler, if set, wraps every handler the world creates (fault / panic injection).
 	WrapHandler func(tier int, h handlers.Handler) handlers.Handler
 	// ConnHook, if set, is applied to every backend connection the world opens.
-	ConnHook func(tier int, c *fakemc.Conn)
-	nconn    int
+	ConnHook  func(tier int, c *fakemc.Conn)
+	nconn     int
+	batchSock string
+}
+
+var worldSockSeq int64
+
+// Release forgets the world's batching relay (its goroutines stay parked) and the dial hook.
+func (w *World) Release() {
+	if w.batchSock != "" {
+		batched.VerifForget(w.batchSock)
+		vnet.DialHook = nil
+		w.batchSock = ""
+	}
 }
 
 type lockKey struct {
@@ -279,6 +294,23 @@ func (w *World) newHandler(tier int, kind string, store *fakemc.Store) (handlers
 	switch kind {
 	case "chunked":
 		h = chunked.NewHandler(c)
+	case "batched":
+		// the batching pool dials its own connections (net.Dial is rewritten by the overlay): one
+		// relay per world, every client connection gets its own Handler on it, as memproxy does
+		w.Conns = w.Conns[:len(w.Conns)-1]
+		store.Opened--
+		if w.batchSock == "" {
+			w.batchSock = fmt.Sprintf("verif-world-sock-%d", atomic.AddInt64(&worldSockSeq, 1))
+			vnet.DialHook = func(network, address string) (net.Conn, error) {
+				pc := fakemc.NewConn(store, "pool:"+address)
+				pc.Async = true
+				worldMu.Lock()
+				w.Conns = append(w.Conns, pc)
+				worldMu.Unlock()
+				return pc, nil
+			}
+		}
+		h = batched.NewHandler(w.batchSock, batched.Opts{BatchSize: 2, BatchDelayMicros: 100, ReadBufSize: 512, WriteBufSize: 512, EvaluationIntervalSec: 4000000000, LoadFactorExpandRatio: 1000, OverloadedConnRatio: 1000})
 	default:
 		h = std.NewHandler(c)
 	}
